@@ -43,7 +43,10 @@ class SortedMap(MutableMapping[K, T], Generic[K, T]):
                 self.keys_storage = list(init_values.keys())
                 values = list(init_values.values())
             else:
-                self.keys_storage, values = zip(*init_values)
+                # later pairs win, like dict()
+                init_values = dict(init_values)
+                self.keys_storage = list(init_values.keys())
+                values = list(init_values.values())
             # sort keys
             sorted_indices = arg_sort(self.keys_storage)
 
@@ -122,7 +125,8 @@ class SortedSet(MutableSet, Generic[T]):
         if init_values is not None:
             sorted_vals = sorted(init_values)
             # check uniqueness
-            self.values.append(sorted_vals[0])
+            if len(sorted_vals) > 0:
+                self.values.append(sorted_vals[0])
             for i in range(1, len(sorted_vals)):
                 if sorted_vals[i] != sorted_vals[i - 1]:
                     self.values.append(sorted_vals[i])
